@@ -383,3 +383,32 @@ def dictionary_requests(valid, rng=None):
         r2.headers = r2.headers + [(n, vs[0]) for n, vs in HEADER_DICTIONARY if n.lower() not in have and n.lower() not in ("content-length", "transfer-encoding", "range", "if-range", "host", "expect")]
         out.append(("dictionary-header:all-at-once", "hdict", r2.bytes()))
     return out
+
+
+def chunked_requests(valid):
+    """requests that use chunked transfer coding (RFC 9112 7.1) - whether or not the server understands it, it has to answer:
+    well-formed chunked bodies (with extensions and trailers) and every extreme / malformed chunk-size line; yields (kind, element, raw)"""
+    out = []
+    targets = []
+    for r in valid:
+        if r.route in ("form-urlencoded", "form-multipart", "static", "notfound") and r.route not in [x.route for x in targets]:
+            targets.append(r)
+    sizes = ["5", "05", "00000000000000005", "5;ext=1", "5 ; a=b", "FFFFFFFFFFFFFFFF", "ffffffffffffffff", "FFFFFFFFFFFFFFFE", "7FFFFFFFFFFFFFFF", "8000000000000000", "10000000000000000", "FFFFFFFF", "80000000",
+             "7FFFFFFF", "-1", "0x5", "5 ", " 5", "g", "", "1e3", "5.0", "+5", "٥"]
+    for r in targets:
+        base = r.copy()
+        base.method = "POST" if base.method in ("GET", "HEAD") else base.method
+        base.headers = [(k, v) for k, v in base.headers if (k if isinstance(k, str) else k.decode("latin-1")).lower() != "content-length"] + [("Transfer-Encoding", "chunked")]
+        for sz in sizes:
+            for tail in ("\r\nhello\r\n0\r\n\r\n", "\r\nhello\r\n0\r\nX-Trailer: 1\r\n\r\n", "\r\nhel", "\r\n"):
+                r2 = base.copy()
+                r2.body = (sz + tail).encode("utf-8")
+                out.append(("chunked:size=%s" % sz[:20], "body", r2.bytes()))
+        r3 = base.copy()
+        r3.body = b"".join(b"1\r\nx\r\n" for _ in range(1200)) + b"0\r\n\r\n"
+        out.append(("chunked:many-chunks", "body", r3.bytes()))
+        r4 = base.copy()
+        r4.headers = r4.headers + [("Content-Length", "5")]
+        r4.body = b"5\r\nhello\r\n0\r\n\r\n"
+        out.append(("chunked:with-content-length", "body", r4.bytes()))
+    return out
